@@ -59,6 +59,7 @@ func c17Contents() [][]mockq.Rec {
 	return [][]mockq.Rec{
 		mk("\x00\xff\xfe\x80", "", "a", "\x1b[\x1b[;;;;m", strings.Repeat("é", 300), "<>{{}}%!s(MISSING)", "\"", "\\"),
 		mk(`{"a":{"b":[1,2`, c17Wide(70), deep, deepArr, `{"a":"b","a":{"a":"b"},"v":1e999,"":""}`, `{"_entry":5,"x y":"z"}`, `{"_entry":"{\"_entry\":1}","a":"\ud800"}`, `[1,2,3]`, `null`, `{"a":1}{"a":2}`, `{"tags":["a",null],"a":[null]}`, `{"a":{"b":[{"c":null},null,[null]]}}`, `{"__error__":"boom","n":"abc","v":"x"}`, `{"__error_details__":"d","n":"abc"}`,
+			"{\"caf\xe9\":1,\"a\xff\":2,\"\xff\xfe\":3,\"ok\":\"\xc3\"}",
 			`{"`+strings.Repeat("k", 60)+`.io/name":"v","0`+strings.Repeat("9", 63)+`":1,"`+strings.Repeat("a.b/", 80)+`":true}`),
 		mk(`d= a= b= sz= v=`, c17WideLogfmt(70), `d="" a="" v=""`, `{"d":"","a":"","v":""}`, `d=1s a=2 b=3 v=4`, `d a b v`, `__error__=boom n=abc v=x d=y`, `__error_details__=d n=abc v=x`,
 			strings.Repeat("k", 60)+`.io/name=v 0`+strings.Repeat("9", 63)+`=1 `+strings.Repeat("a.b/", 80)+`=true`),
